@@ -155,6 +155,9 @@ func (e *Engine) AnalyzeDecoder(fn *ssa.Function) (*DecResult, error) {
 		if r.Err.Known && !r.Err.Nil {
 			continue
 		}
+		if contradictory(r.St.conds) {
+			continue // an infeasible path (b and !b both assumed)
+		}
 		res.NRet++
 		alt := &DecResult{Fields: map[string]BV{}, Other: map[string]string{}, Cond: append([]Bit(nil), r.St.conds...), NRet: 1}
 		fillDec(alt, r.St, obj)
@@ -199,8 +202,12 @@ func fillDec(res *DecResult, js *State, obj *Object) {
 		walk(fieldName(obj, path), v)
 	}
 	for list, tmpl := range js.appends {
-		for _, t := range tmpl {
-			walk(list+"[]", t)
+		for i, t := range tmpl {
+			if len(tmpl) == 1 {
+				walk(list+"[]", t)
+			} else {
+				walk(fmt.Sprintf("%s[%d]", list, i), t) // appended by an unrolled loop / straight-line code
+			}
 		}
 	}
 }
@@ -283,4 +290,16 @@ func (e *Engine) AnalyzeFunc(fn *ssa.Function) ([]FuncAlt, error) {
 		return nil, fmt.Errorf("%s: no return found", fn.Name())
 	}
 	return out, nil
+}
+
+func contradictory(cs []Bit) bool {
+	for _, c := range cs {
+		n := bitNot(c)
+		for _, d := range cs {
+			if d == n {
+				return true
+			}
+		}
+	}
+	return false
 }
